@@ -386,8 +386,9 @@ class Differ:
             prefix="Differ::_diff_arrays_of_scalars:  ",
             data=rhs)
 
+        by_position_only = kwargs.pop("by_position_only", False)
         diff_mode = self.config.array_diff_mode(node_coord)
-        if diff_mode is ArrayDiffOpts.VALUE:
+        if diff_mode is ArrayDiffOpts.VALUE and not by_position_only:
             self._diff_synced_lists(path, lhs, rhs)
             return
 
@@ -452,11 +453,13 @@ class Differ:
         diff_mode = self.config.aoh_diff_mode(node_coord)
         if diff_mode is AoHDiffOpts.POSITION:
             self._diff_arrays_of_scalars(
-                path, lhs, rhs, node_coord, diff_deeply=False)
+                path, lhs, rhs, node_coord, diff_deeply=False,
+                by_position_only=True)
             return
         if diff_mode is AoHDiffOpts.DPOS:
             self._diff_arrays_of_scalars(
-                path, lhs, rhs, node_coord, diff_deeply=True)
+                path, lhs, rhs, node_coord, diff_deeply=True,
+                by_position_only=True)
             return
         if diff_mode is AoHDiffOpts.VALUE:
             self._diff_synced_lists(path, lhs, rhs)
